@@ -104,12 +104,12 @@ Definition utf16le_decode (bs : bytes) : list N := utf16_decode_units (to_units 
 
 Fixpoint trim_left (s : list N) : list N :=
   match s with 0 :: r => trim_left r | _ => s end.
-Definition trim_zeros (s : list N) : list N := rev (trim_left (rev (trim_left s))).
+Definition trim_zeros (s : list N) : list N := frev (trim_left (frev (trim_left s))).
 
 (* util.ParseUtf16Var (after the fix: empty input is an error, not a panic) *)
 Definition parse_utf16 (bs : bytes) : outcome (list N) :=
   let s := utf16le_decode bs in
-  match rev s with
+  match frev s with
   | [] => Err 1
   | 0 :: _ => Ret (trim_zeros s)
   | _ :: _ => Err 2
